@@ -931,3 +931,18 @@ N('DA-group-dtype-get-merge', ['C07', 'C20'], 'pivot.py', 'pivot_index_map',
   '                if group not in group_to_dtype:\n                    group_to_dtype[group] = dtype\n                else:\n                    group_to_dtype[group] = resolve_dtype(group_to_dtype[group], dtype)\n')
 N('DA-unstack-dtype-self-merge', ['C07', 'C20'], 'frame.py', 'Frame.pivot_unstack',
   '                            dtype = resolve_dtype(dtype_src_col, dtype_fill)\n', '                            dtype = resolve_dtype(dtype, dtype_fill)\n')
+
+# ---------------------------------------------------------------------------------- fresh arrays returned frozen (C01)
+B('R7-iloc-searchsorted-direct', ['C01'], 'series.py', 'Series.iloc_searchsorted',
+  "        if post.__class__ is np.ndarray: # an element if a single value was given\n            post.flags.writeable = False\n        return post", "        return post",
+  'A-R7', 'iloc_searchsorted')
+B('R7-loc-searchsorted-nofill-unfrozen', ['C01'], 'index_base.py', 'IndexBase.loc_searchsorted',
+  "            post = self.values[sel]\n            if post.__class__ is np.ndarray: # an element if a single value was given\n                post.flags.writeable = False\n            return post",
+  "            return self.values[sel]", 'A-R7', 'loc_searchsorted')
+B('R7-index-cumsum-unfrozen', ['C01'], 'index.py', 'Index._ufunc_axis_skipna',
+  "        if post.__class__ is np.ndarray: # cumsum, cumprod\n            post.flags.writeable = False\n        return post", "        return post", 'A-R7', '_ufunc_axis_skipna')
+B('R7-ih-loc-searchsorted-fill-unfrozen', ['C01'], 'index_hierarchy.py', 'IndexHierarchy.loc_searchsorted',
+  "        post[mask] = fill_value\n        post.flags.writeable = False\n", "        post[mask] = fill_value\n", 'A-R7', 'loc_searchsorted')
+N('R7-iloc-searchsorted-isinstance', ['C01'], 'series.py', 'Series.iloc_searchsorted',
+  "        if post.__class__ is np.ndarray: # an element if a single value was given\n            post.flags.writeable = False\n        return post",
+  "        if isinstance(post, np.ndarray):\n            post.flags.writeable = False\n        return post")
